@@ -1,6 +1,7 @@
 import Tengo.Model.Format
 import Tengo.Model.FormatSpec
 import Tengo.Proofs.FormatGood
+import Tengo.Proofs.FormatParse
 import Tengo.Gen.FormatVerbs
 /-!
 C17 — format() and sprintf agree with Go's fmt for every documented verb.
@@ -10,7 +11,7 @@ all three entry points and by the regenerated verb tables); `G` = `Tengo.Model.F
 spec of `fmt.Sprintf` per directive family, tied to the real `fmt.Sprintf` by the `gspec` stream).
 -/
 namespace Tengo.Props.C17
-open Tengo.Model.Format Tengo.Model.FormatSpec Tengo.Proofs.FormatGood
+open Tengo.Model.Format Tengo.Model.FormatSpec Tengo.Proofs.FormatGood Tengo.Proofs.FormatParse
 
 /-! ### The regenerated tables are the ones the model dispatches on -/
 
@@ -112,54 +113,6 @@ def charVal (c : UInt8) : Nat :=
 /-- Read a digit string back in its base. -/
 def readBack (b : Nat) (s : Bytes) : Nat := s.foldl (fun acc c => acc * b + charVal c) 0
 
-def evalRev (b : Nat) : List Nat → Nat
-  | [] => 0
-  | d :: ds => d + b * evalRev b ds
-
-theorem evalRev_digitsRev (b : Nat) : ∀ (n u : Nat), u ≤ n → evalRev b (digitsRev b u) = u := by
-  intro n
-  induction n with
-  | zero =>
-    intro u hu
-    have : u = 0 := by omega
-    subst this
-    rw [digitsRev]; split
-    · omega
-    · simp [evalRev]
-  | succ n ih =>
-    intro u hu
-    rw [digitsRev]
-    split
-    · rename_i h
-      have hlt : u / b < u := Nat.div_lt_self (by omega) (by omega)
-      simp only [evalRev]
-      rw [ih (u / b) (by omega)]
-      exact Nat.mod_add_div u b
-    · simp [evalRev]
-
-theorem digitsRev_lt (b : Nat) (hb : 2 ≤ b) : ∀ (n u : Nat), u ≤ n → ∀ d ∈ digitsRev b u, d < b := by
-  intro n
-  induction n with
-  | zero =>
-    intro u hu d hd
-    have : u = 0 := by omega
-    subst this
-    rw [digitsRev] at hd
-    split at hd
-    · omega
-    · simp at hd; omega
-  | succ n ih =>
-    intro u hu d hd
-    rw [digitsRev] at hd
-    split at hd
-    · rename_i h
-      have hlt : u / b < u := Nat.div_lt_self (by omega) (by omega)
-      simp only [List.mem_cons] at hd
-      cases hd with
-      | inl h1 => subst h1; exact Nat.mod_lt _ (by omega)
-      | inr h2 => exact ih (u / b) (by omega) d h2
-    · simp at hd; omega
-
 theorem charVal_digitChar : ∀ (d : Fin 16) (up : Bool), charVal (digitChar up d.val) = d.val := by decide
 
 theorem readBack_digits (b : Nat) (up : Bool) : ∀ l : List Nat, (∀ d ∈ l, d < 16) →
@@ -216,12 +169,6 @@ example : digitsOf false 16 (mag (BitVec.ofInt 64 (-9223372036854775808))) = [56
   · decide
 
 /-! ### `M = G`, family by family -/
-
-/-- The formatter flags a directive denotes (what `doFormat` holds after parsing its canonical
-text: `-` cancels `0`). -/
-def flOf (d : GDir) : Fl :=
-  { plus := d.plus, minus := d.minus, sharp := d.sharp, space := d.space, zero := d.zero && !d.minus,
-    widPresent := d.width.isSome, wid := d.width.getD 0, precPresent := d.prec.isSome, prec := d.prec.getD 0 }
 
 /-- What `pad` appends. -/
 def padded (f : Fl) (b : Bytes) : Bytes :=
@@ -507,5 +454,127 @@ theorem M_eq_G_partial (O : Oracle) (L : Nat) (d : GDir) (buf : Bytes) (h : buf.
     (∀ b : Bool, d.verb = 116 → printArg O L (flOf d) buf (.bool b) d.verb = write L buf (renderBool d b)) :=
   ⟨fun v hv => M_eq_G_int O L d buf v hv h, fun v hv => M_eq_G_char O L d buf v hv h,
    fun s hv => M_eq_G_str O L d buf s hv h, fun b hv => M_eq_G_bool O L d buf b hv h⟩
+
+/-! ### The parser link and single-directive formats end to end -/
+
+/-- **Parser link.** See `Tengo.Proofs.FormatParse.parse_show`: the directive parser of `doFormat` maps
+the canonical text of a directive to `flOf d`, consuming exactly that text. -/
+theorem parser_recovers_directive (ints : List (Option Int)) (argNum : Nat) (d : GDir) (vb : UInt8) (rest : Bytes)
+    (hv : vb.toNat = d.verb) (hpv : PlainVerb vb)
+    (hw : ∀ w, d.width = some w → 1 ≤ w ∧ w ≤ 1000000) (hp : ∀ p, d.prec = some p → p ≤ 1000000) :
+    parseDirective ints argNum (dirText d vb rest) = expected d argNum (dirText d vb []).length :=
+  parse_show ints argNum d vb rest hv hpv hw hp
+
+theorem loop_nil (O : Oracle) (L : Nat) (args : List Arg) (ints : List (Option Int)) (st : LoopOut) :
+    loop O L args ints [] st = .ok st := by
+  rw [loop]; simp
+
+theorem renderDirective_expected (O : Oracle) (L : Nat) (a : Arg) (d : GDir) (n : Nat) (buf : Bytes)
+    (h37 : d.verb ≠ 37) (h118 : d.verb ≠ 118) :
+    renderDirective O L [a] (expected d 0 n) buf = printArg O L (flOf d) buf a d.verb := by
+  simp [renderDirective, expected, h37, h118, bind, Except.bind]
+
+theorem resolveInts_length (O : Oracle) : ∀ (args : List Arg) (ints : List (Option Int)),
+    resolveInts O args = some ints → ints.length = args.length := by
+  intro args
+  induction args with
+  | nil => intro ints h; simp [resolveInts] at h; subst h; rfl
+  | cons a rest ih =>
+    intro ints h
+    simp only [resolveInts] at h
+    split at h
+    · rename_i v vs _ hvs
+      simp at h; subst h
+      simp [ih vs hvs]
+    · simp at h
+
+/-- One iteration of the loop at a `%`. -/
+theorem loop_percent (O : Oracle) (L : Nat) (args : List Arg) (ints : List (Option Int)) (t : Bytes) (st : LoopOut) :
+    loop O L args ints (37 :: t) st =
+      (match renderDirective O L args (parseDirective ints st.argNum t) st.buf with
+       | .error e => .error e
+       | .ok buf =>
+         if (parseDirective ints st.argNum t).verb.isNone then
+           .ok { buf := buf, argNum := nextArgNum args.length (parseDirective ints st.argNum t),
+                 reordered := st.reordered || (parseDirective ints st.argNum t).reordered }
+         else loop O L args ints (t.drop (parseDirective ints st.argNum t).n)
+           { buf := buf, argNum := nextArgNum args.length (parseDirective ints st.argNum t),
+             reordered := st.reordered || (parseDirective ints st.argNum t).reordered }) := by
+  rw [loop]
+  simp only [List.cons_ne_nil, if_false, litLen, if_true, Nat.lt_irrefl]
+  split
+  · rename_i heq; simp at heq
+  · rename_i c r1 heq
+    have hr1 : r1 = t := by
+      injection heq with _ h2; exact h2.symm
+    subst hr1
+    rfl
+
+/-- A format string that is one canonical directive, applied to one operand: if the verb-level
+rendering is a guarded write of `out` (what `M_eq_G_*` establish with `out` = `G`'s text), then
+`Format` as a whole returns `out` (or the limit error when it does not fit). -/
+theorem format_single_directive (O : Oracle) (L : Nat) (d : GDir) (vb : UInt8) (a : Arg) (out : Bytes)
+    (ints : List (Option Int)) (hints : resolveInts O [a] = some ints)
+    (hv : vb.toNat = d.verb) (hpv : PlainVerb vb) (h37 : d.verb ≠ 37) (h118 : d.verb ≠ 118)
+    (hw : ∀ w, d.width = some w → 1 ≤ w ∧ w ≤ 1000000) (hp : ∀ p, d.prec = some p → p ≤ 1000000)
+    (hM : printArg O L (flOf d) [] a d.verb = write L [] out) :
+    format O L (37 :: dirText d vb []) [a] = write L [] out := by
+  have hlen : ints.length = 1 := resolveInts_length O [a] ints hints
+  unfold format
+  rw [hints]
+  simp only []
+  rw [loop_percent, parse_show ints 0 d vb [] hv hpv hw hp]
+  rw [renderDirective_expected O L a d _ [] h37 h118, hM]
+  cases hwr : write L [] out with
+  | error e => rfl
+  | ok b =>
+    simp only [expected, Option.isNone_some, Bool.false_eq_true, if_false, List.drop_length, loop_nil]
+    simp [nextArgNum, h37]
+
+theorem plainVerb_of (vb : UInt8) (k : Nat) (hv : vb.toNat = k)
+    (hk : k = 100 ∨ k = 98 ∨ k = 111 ∨ k = 79 ∨ k = 120 ∨ k = 88 ∨ k = 115 ∨ k = 116 ∨ k = 99) : PlainVerb vb := by
+  unfold PlainVerb
+  rcases hk with h | h | h | h | h | h | h | h | h <;>
+    (refine ⟨by omega, ?_, ?_, ?_, ?_, ?_, ?_, ?_, ?_, by omega⟩ <;> (intro hc; rw [hc] at hv; simp at hv; omega))
+
+/-- **`M = G` end to end on single-directive formats.** `format("%<flags><width><.prec><verb>", x)` —
+the whole of `Format`: directive parser, operand selection, verb dispatch, padding, limit, surplus
+check — is `G`'s text (or the string-limit error if that text does not fit), for `%b %d %o %O %x %X`
+and `%c` on every int64, `%s` on every string and byte slice, `%t` on booleans. -/
+theorem format_eq_G_single (O : Oracle) (L : Nat) (d : GDir) (vb : UInt8) (hv : vb.toNat = d.verb)
+    (hw : ∀ w, d.width = some w → 1 ≤ w ∧ w ≤ 1000000) (hp : ∀ p, d.prec = some p → p ≤ 1000000) :
+    (∀ v : BitVec 64, (d.verb = 100 ∨ d.verb = 98 ∨ d.verb = 111 ∨ d.verb = 79 ∨ d.verb = 120 ∨ d.verb = 88) →
+      format O L (37 :: dirText d vb []) [.int v] = write L [] (renderInt d v.toInt)) ∧
+    (∀ v : BitVec 64, d.verb = 99 →
+      format O L (37 :: dirText d vb []) [.int v] = write L [] (renderChar d v.toInt)) ∧
+    (∀ s : Bytes, d.verb = 115 →
+      format O L (37 :: dirText d vb []) [.str s] = write L [] (renderStr d s) ∧
+      format O L (37 :: dirText d vb []) [.bytes s] = write L [] (renderStr d s)) ∧
+    (∀ b : Bool, d.verb = 116 →
+      format O L (37 :: dirText d vb []) [.bool b] = write L [] (renderBool d b)) := by
+  refine ⟨?_, ?_, ?_, ?_⟩
+  · intro v hverb
+    have hpv := plainVerb_of vb d.verb hv (by omega)
+    exact format_single_directive O L d vb (.int v) _ [some v.toInt] rfl hv hpv (by omega) (by omega) hw hp
+      (M_eq_G_int O L d [] v hverb (by simp))
+  · intro v hverb
+    have hpv := plainVerb_of vb d.verb hv (by omega)
+    exact format_single_directive O L d vb (.int v) _ [some v.toInt] rfl hv hpv (by omega) (by omega) hw hp
+      (M_eq_G_char O L d [] v hverb (by simp))
+  · intro s hverb
+    have hpv := plainVerb_of vb d.verb hv (by omega)
+    exact ⟨format_single_directive O L d vb (.str s) _ [parseInt s] rfl hv hpv (by omega) (by omega) hw hp
+        (M_eq_G_str O L d [] s hverb (by simp)).1,
+      format_single_directive O L d vb (.bytes s) _ [none] rfl hv hpv (by omega) (by omega) hw hp
+        (M_eq_G_str O L d [] s hverb (by simp)).2⟩
+  · intro b hverb
+    have hpv := plainVerb_of vb d.verb hv (by omega)
+    exact format_single_directive O L d vb (.bool b) _ [some (if b then 1 else 0)] rfl hv hpv (by omega) (by omega) hw hp
+      (M_eq_G_bool O L d [] b hverb (by simp))
+
+/-- Non-vacuity: `%-#08.3x` has a canonical text and satisfies the hypotheses. -/
+example : dirText { minus := true, sharp := true, zero := true, width := some 8, prec := some 3, verb := 120 } 120 [] =
+    [45, 35, 48, 56, 46, 51, 120] := by
+  simp [dirText, flagText, widthText, precText, decimal, digitsText, digitsRev, digitChar]
 
 end Tengo.Props.C17
